@@ -513,3 +513,13 @@ GROUP = [
 PROPS["C05"]["harnesses"] += GROUP
 PROPS["C05"]["explanation"] += " The shift priority itself (LRState::group_per_next_symbol, sliced) is decided to be the maximum priority of the productions in which the terminal follows the dot in the state."
 PROPS["C04"]["harnesses"] += [GROUP[0]]
+
+
+# the language-level effect of the grammar front end (EMPTY removal, sugar expansion) on corpus grammars
+E4Q = {x["name"].split("::")[-1]: x for x in e4_harnesses()}
+PROPS["C09"]["harnesses"] += [E4Q[n] for n in ("lr_g20_empty_trailing_q", "lr_g7_sugar_q", "lr_g5_opt_list_q", "lr_g20_empty_trailing_t", "lr_g7_sugar_t")]
+PROPS["C09"]["explanation"] += " For three corpus grammars that use EMPTY inside and after other symbols, ?, *, +[separator] sugar, the language of the grammar the compiler actually analysed (automaton over its table, all token strings up to the bound) equals the language of the written grammar (independent Earley reference built from the written productions)."
+PROPS["C01"]["harnesses"] = e4_harnesses()
+PROPS["C04"]["harnesses"] = [x for x in PROPS["C04"]["harnesses"] if x["crate"] != "e4"] + e4_harnesses()
+
+PROPS["C16"]["explanation"] += " As a by-product of regenerating the encodings, the real front end, table construction and generator are run natively on every corpus grammar (about 40 grammar/setting pairs); a panic there is reported as a C16 violation with the grammar as replay (a concrete falsification, not a solver verdict); a diagnostic (Err) is not."
